@@ -33,6 +33,13 @@ def run(ctx) -> None:
     from .c01 import r4_order_edges
     with ctx.as_rule(C01_R4="C08.R6"):
         r4_order_edges(ctx)
+    ctx.rule("C08.R7", "the store the HUGR is inserted into is consistent: removals close gaps on both ports and delete_node removes every link of "
+             "every port (a stale link at a reused index would become a link of the image) -- shared with C04.R3/R4", floor=4)
+    from .c04 import r3_dense_suboffsets, r4_deletion_complete
+    hugr_cls = ctx.program.cls("hugr.hugr.base.Hugr")
+    with ctx.as_rule(C04_R3="C08.R7", C04_R4="C08.R7"):
+        r3_dense_suboffsets(ctx, hugr_cls, hugr_cls.module.path)
+        r4_deletion_complete(ctx, hugr_cls, hugr_cls.module.path)
     from .. import lints
     lints.arm(ctx)
 
